@@ -99,7 +99,7 @@ def one_run(job):
         if os.path.exists(env["CMI_VERIF_TRACE"]):
             os.remove(env["CMI_VERIF_TRACE"])
         env["CMI_VERIF_TRACE_LEVEL"] = "2"
-    timeout = 600 if tsan else 300
+    timeout = 600 if tsan else 150
     r = binrun.run_cmi(exe, rd, ["--params", pf] + mode_args, env=env, timeout=timeout, threads=threads)
     if r.timed_out:
         if not tsan and os.path.exists(env["CMI_VERIF_TRACE"]):
@@ -175,6 +175,10 @@ def main():
                 continue
             if res["rc"] != 0:
                 err = res["stderr_tail"]
+                if res["rc"] == 97:
+                    chk.violation("termination/no-progress", "the iteration does not end: no task running, none obtainable in 2e5 consecutive polls, packets still "
+                                  "unaccounted for | %s | %s" % (label, err[-200:].replace("\n", " ")), rp)
+                    continue
                 if "No more free elements" in err or "Too many tasks in queue" in err:
                     chk.inconclusive_because("capacity exhausted (proviso of the property): " + label)
                 elif res["rc"] == 66 or "ThreadSanitizer" in err and res["tsan"]:
